@@ -15,7 +15,7 @@ RULE = (
     "as argv and (when expressible) as quoted string; exhaustive: for small formats (0-2 options over 8 shapes x 6 "
     "argument shapes x with/without a command name on a base level) and 2-value pools, EVERY meaning x spelling x "
     "interleaving the same grammar can produce, enumerated by depth-first re-execution of the generator over its "
-    "choice points (quick: a 1/12 slice of the formats chosen by the seed; thorough: all 900 formats, including explicit long / short name preferences). Non-trivial: "
+    "choice points (quick: a 1/12 slice of the formats chosen by the seed; thorough: all 900 formats, including explicit long / short name preferences). every result is also asked about itself (format, raw arguments, script name, command names, which names and positions are defined). Non-trivial: "
     "the line shows at least two of the spelling features. Distinct = distinct (format, tokens) by hash."
 )
 ASSUMPTIONS = [
@@ -116,6 +116,30 @@ def check_parse(ctx, case, part="parse"):
                 if bool(args.is_argument_set(a["name"])) != (a["name"] in exp["arguments_set"]):
                     ctx.fail(part, "C01.access", case, a["name"] in exp["arguments_set"],
                              {"is_argument_set": a["name"], "mode": tag}, sig="is_argument_set")
+            # what else the result tells about itself: the format and raw arguments it was parsed from, the command
+            # names of the format, which names / positions are defined at all
+            try:
+                meta = {
+                    "format": args.format is fmt,
+                    "raw_args": args.raw_args is raw,
+                    "script_name": args.script_name == raw.script_name,
+                    "command_names": [n.string for n in args.command_names],
+                    "command_options": [o.long_name for o in args.command_options],
+                    "defined": [bool(args.is_option_defined(k)) for o in gen_args.fmt_options(case["fmt"])
+                                for k in [o["long"]] + ([o["short"]] if o["short"] else [])]
+                    + [bool(args.is_argument_defined(k)) for i, a in enumerate(gen_args.fmt_args(case["fmt"]))
+                       for k in (a["name"], i)],
+                    "undefined": [bool(args.is_option_defined("no-such-option-x")), bool(args.is_argument_defined("no-such-arg")),
+                                  bool(args.is_argument_defined(len(gen_args.fmt_args(case["fmt"]))))],
+                }
+            except Exception as e:
+                ctx.fail(part, "C01.access", case, "result describes itself", tag, exc=e)
+                continue
+            want_meta = {"format": True, "raw_args": True, "script_name": True,
+                         "command_names": [n["name"] for n in gen_args.fmt_names(case["fmt"])], "command_options": [],
+                         "defined": [True] * len(meta["defined"]), "undefined": [False, False, False]}
+            if meta != want_meta:
+                ctx.fail(part, "C01.access", case, want_meta, {"mode": tag, "meta": meta}, sig="self-description")
     base = results.get("argv-strict")
     for tag, obs in results.items():
         if base is not None and not typed_equal(obs, base):
